@@ -154,6 +154,10 @@ impl ObjectReceiver {
 
         self.init_blocks_partitioning();
         self.init_object_writer(now);
+        if self.state != State::Receiving {
+            // The object writer refused or failed to open the object
+            return;
+        }
         self.push_from_cache(now);
 
         if self.oti.is_none() {
